@@ -177,7 +177,7 @@ func init() {
 			key := fnName(fn) + "/getChunkSize"
 			for _, call := range callsOf(fn, "getChunkSize") {
 				var probs []string
-				a0, a1, a2 := call.Call.Args[0], call.Call.Args[1], call.Call.Args[2]
+				a0, a1, a2 := chunkSizeArgs(&call.Call)
 				if exprSig(a0, 0) != ".chunkMode" {
 					probs = append(probs, "mode argument is "+exprSig(a0, 0)+", not the builder's chunkMode")
 				}
@@ -206,7 +206,7 @@ func init() {
 				// cardinality of the bitmap handed to writePostings
 				wp := callsOf(fn, "writePostings")
 				card, ok := a1.(*ssa.Call)
-				if !ok || card.Call.StaticCallee() == nil || card.Call.StaticCallee().Name() != "GetCardinality" || len(wp) != 1 || card.Call.Args[0] != wp[0].Call.Args[0] {
+				if !ok || card.Call.StaticCallee() == nil || card.Call.StaticCallee().Name() != "GetCardinality" || len(wp) != 1 || card.Call.Args[0] != argOfType(&wp[0].Call, roaringBitmapPtr) {
 					probs = append(probs, "cardinality argument is not GetCardinality() of the bitmap that writePostings serialises")
 				}
 				probs = append(probs, bothEncodersResized(fn, call)...)
@@ -223,21 +223,22 @@ func init() {
 			mtw := c.MustFn("mergeToWriter")
 			for _, call := range callsOf(fn, "getChunkSize") {
 				var probs []string
-				if fm := c.footerStoreIn(msw, "chunkMode"); fm == nil || !c.paramChainHas(call.Call.Args[0], fm) {
+				m0, m1, m2 := chunkSizeArgs(&call.Call)
+				if fm := c.footerStoreIn(msw, "chunkMode"); fm == nil || !c.paramChainHas(m0, fm) {
 					probs = append(probs, "mode argument does not trace to the value stored in the merged footer's chunkMode")
 				}
-				if fd := c.footerStoreIn(mtw, "numDocs"); fd == nil || !c.paramChainHas(call.Call.Args[2], fd) {
+				if fd := c.footerStoreIn(mtw, "numDocs"); fd == nil || !c.paramChainHas(m2, fd) {
 					probs = append(probs, "document-count argument does not trace to the value stored in the merged footer's numDocs")
 				}
 				// card: phi accumulating Count() of lists opened with drops[idx]
 				okCard := false
-				if phi, ok := call.Call.Args[1].(*ssa.Phi); ok {
+				if phi, ok := m1.(*ssa.Phi); ok {
 					for _, e := range phi.Edges {
 						if bin, ok := e.(*ssa.BinOp); ok && bin.Op == token.ADD && bin.X == ssa.Value(phi) {
 							if cnt, ok := bin.Y.(*ssa.Call); ok && cnt.Call.StaticCallee() != nil && fnName(cnt.Call.StaticCallee()) == "(*PostingsList).Count" {
 								if ex, ok := cnt.Call.Args[0].(*ssa.Extract); ok {
 									if plc, ok := ex.Tuple.(*ssa.Call); ok && plc.Call.StaticCallee() != nil && fnName(plc.Call.StaticCallee()) == "(*Dictionary).postingsListFromOffset" {
-										if strings.HasPrefix(exprSig(plc.Call.Args[2], 0), "param:drops[") {
+										if strings.HasPrefix(exprSig(argOfType(&plc.Call, roaringBitmapPtr), 0), "param:drops[") {
 											okCard = true
 										}
 									}
@@ -261,13 +262,14 @@ func init() {
 			key = fnName(fn) + "/getChunkSize"
 			for _, call := range callsOf(fn, "getChunkSize") {
 				var probs []string
-				if s := exprSig(call.Call.Args[0], 0); s != ".chunkMode" || !strings.HasSuffix(accessPath(call.Call.Args[0].(*ssa.UnOp).X), ".footer.chunkMode") {
+				r0, r1, r2 := chunkSizeArgs(&call.Call)
+				if ld, ok := r0.(*ssa.UnOp); !ok || !strings.HasSuffix(accessPath(ld.X), ".footer.chunkMode") {
 					probs = append(probs, "mode argument is not footer.chunkMode")
 				}
-				if ld, ok := call.Call.Args[2].(*ssa.UnOp); !ok || !strings.HasSuffix(accessPath(ld.X), ".footer.numDocs") {
+				if ld, ok := r2.(*ssa.UnOp); !ok || !strings.HasSuffix(accessPath(ld.X), ".footer.numDocs") {
 					probs = append(probs, "document-count argument is not footer.numDocs")
 				}
-				card, ok := call.Call.Args[1].(*ssa.Call)
+				card, ok := r1.(*ssa.Call)
 				fromBuf := false
 				if ok && card.Call.StaticCallee() != nil && card.Call.StaticCallee().Name() == "GetCardinality" {
 					for _, fb := range fn.Blocks {
@@ -395,8 +397,8 @@ func init() {
 		Floor: 2,
 		Doc:   "the byte-count prefix written before a posting's locations is totalUvarintBytes of the same four quantities (as a multiset) that are then encoded per location; otherwise skipping over locations lands mid-record",
 		Run: func(c *Ctx, scope string, r *Report) {
-			for _, name := range []string{"(*interim).writeDictsTermField", "mergeTermFreqNormLocs"} {
-				fn := c.MustFn(name)
+			for _, fn := range c.fnsCalling("totalUvarintBytes") {
+				name := fnName(fn)
 				key := name + "/prefix"
 				tub := callsOf(fn, "totalUvarintBytes")
 				if len(tub) != 1 {
@@ -702,9 +704,11 @@ func init() {
 				r.bad(key, fnName(fn), c.pos(fn.Pos()), "location field ids are not taken from the merged fieldsMap")
 			}
 			// DV-REMAP
+			// the doc-value visitor: the function literal of the merge path that
+			// feeds the merged doc-value encoder (wherever it was moved to)
 			var dvfn *ssa.Function
-			for _, f := range c.srcFns {
-				if strings.HasPrefix(fnName(f), "buildMergedDocVals$") {
+			for _, f := range c.fnsCalling("(*chunkedContentCoder).Add") {
+				if f.Parent() != nil && (c.entries().MERGE[topFn(f)] || strings.HasPrefix(fnName(f), "buildMergedDocVals$")) {
 					dvfn = f
 				}
 			}
@@ -724,6 +728,13 @@ func init() {
 					var tableParam *ssa.Parameter
 					for _, p := range top.Params {
 						if strings.HasSuffix(p.Type().String(), "[][]uint64") {
+							tableParam = p
+						}
+					}
+					if tableParam == nil {
+						// a per-segment helper: it is handed one segment's table, which
+						// every caller must select with the index it selects the segment with
+						if p := paramOfType(top, "[]uint64"); p != nil && perSegmentTableArg(c, top, p) {
 							tableParam = p
 						}
 					}
@@ -931,9 +942,10 @@ func init() {
 		Floor: 1,
 		Doc:   "the merger chooses the 1-hit FST value only under the conjunction: cardinality == 1, no location bytes, docNum fits 31 bits, docNum is the last document written, and its frequency is 1",
 		Run: func(c *Ctx, scope string, r *Report) {
+			// the decision function: the merge-side function that tests under32Bits
 			var fn *ssa.Function
-			for _, f := range c.srcFns {
-				if strings.HasPrefix(fnName(f), "finishTerm$") {
+			for _, f := range c.fnsCalling("under32Bits") {
+				if c.entries().MERGE[f] || c.entries().MERGE[f.Parent()] || strings.HasPrefix(fnName(f), "finishTerm") {
 					fn = f
 				}
 			}
@@ -960,15 +972,15 @@ func init() {
 				case *ssa.BinOp:
 					sx := exprSig(x, 0)
 					switch {
-					case x.Op == token.EQL && sx == "(param:termCardinality==1)":
+					case x.Op == token.EQL && (sx == "(param:termCardinality==1)" || sx == "(1==param:termCardinality)"):
 						return 0, false, true
 					case (x.Op == token.LEQ || x.Op == token.EQL) && strings.Contains(exprSig(x.X, 0), "FinalSize(") && exprSig(x.Y, 0) == "0":
 						return 1, false, true
 					case x.Op == token.GTR && strings.Contains(exprSig(x.X, 0), "FinalSize(") && exprSig(x.Y, 0) == "0":
 						return 1, true, true
-					case x.Op == token.EQL && (strings.HasSuffix(sx, "==free:lastDocNum)") || strings.HasPrefix(sx, "(free:lastDocNum==")):
+					case x.Op == token.EQL && isLastHitCmp(exprSig(x.X, 0), exprSig(x.Y, 0)):
 						return 3, false, true
-					case x.Op == token.EQL && (sx == "(free:lastFreq==1)" || sx == "(1==free:lastFreq)"):
+					case x.Op == token.EQL && isLastFreqOne(exprSig(x.X, 0), exprSig(x.Y, 0)):
 						return 4, false, true
 					}
 				case *ssa.Call:
@@ -990,6 +1002,67 @@ func init() {
 			}
 		},
 	})
+}
+
+// perSegmentTableArg: every call of helper passes for its []uint64 parameter p
+// an element TABLES[i] of a [][]uint64 parameter of the caller, and for its
+// *Segment parameter (if any) the element SEGMENTS[i] with the same index.
+func perSegmentTableArg(c *Ctx, helper *ssa.Function, p *ssa.Parameter) bool {
+	sites := c.callsTo(helper)
+	if len(sites) == 0 {
+		return false
+	}
+	elemIndex := func(v ssa.Value) (ssa.Value, ssa.Value, bool) {
+		ld, ok := v.(*ssa.UnOp)
+		if !ok || ld.Op != token.MUL {
+			return nil, nil, false
+		}
+		ia, ok := ld.X.(*ssa.IndexAddr)
+		if !ok {
+			return nil, nil, false
+		}
+		return ia.X, ia.Index, true
+	}
+	for _, site := range sites {
+		tbl, idx, ok := elemIndex(argFor(site.Common(), p))
+		if !ok {
+			return false
+		}
+		caller := site.Parent()
+		okTbl := false
+		for _, cp := range caller.Params {
+			if strings.HasSuffix(cp.Type().String(), "[][]uint64") && derivesFrom(c, tbl, cp, 0) {
+				okTbl = true
+			}
+		}
+		if !okTbl {
+			return false
+		}
+		if sp := paramOfType(helper, "*"+rootPkgPath+".Segment"); sp != nil {
+			if _, sidx, ok := elemIndex(argFor(site.Common(), sp)); !ok || sidx != idx {
+				return false
+			}
+		}
+	}
+	return true
+}
+
+// isLastHitCmp: one side is the single document of the merged bitmap
+// (Minimum()), the other the remembered last document number written
+// (a variable, captured variable or field whose name says docNum).
+func isLastHitCmp(a, b string) bool {
+	one := func(x, y string) bool {
+		return strings.Contains(x, "Minimum(") && strings.Contains(strings.ToLower(y), "docnum") && !strings.Contains(y, "Minimum(")
+	}
+	return one(a, b) || one(b, a)
+}
+
+// isLastFreqOne: the remembered last frequency compared with 1.
+func isLastFreqOne(a, b string) bool {
+	one := func(x, y string) bool {
+		return y == "1" && strings.Contains(strings.ToLower(x), "freq") && !strings.Contains(x, "(")
+	}
+	return one(a, b) || one(b, a)
 }
 
 // resolveCellLoad: follow loads of single-assignment local cells.
@@ -1082,8 +1155,9 @@ func derivesFrom(c *Ctx, v ssa.Value, param *ssa.Parameter, depth int) bool {
 	return false
 }
 
-// bothEncodersResized: the getChunkSize result reaches SetChunkSize of both
-// encoders (tfEncoder, locEncoder parameters) with identical arguments.
+// bothEncodersResized: the getChunkSize result reaches SetChunkSize of two
+// distinct encoders (the freq/norm and the location encoder, however they are
+// named or passed) with identical arguments.
 func bothEncodersResized(fn *ssa.Function, gcs *ssa.Call) []string {
 	res := tupleParts(gcs)[0]
 	if res == nil {
@@ -1091,23 +1165,23 @@ func bothEncodersResized(fn *ssa.Function, gcs *ssa.Call) []string {
 	}
 	sized := map[string]string{}
 	for _, call := range callsOf(fn, "(*chunkedIntCoder).SetChunkSize") {
-		p, ok := call.Call.Args[0].(*ssa.Parameter)
-		if !ok {
-			continue
-		}
+		recv := exprSig(call.Call.Args[0], 0)
 		if call.Call.Args[1] != ssa.Value(res) {
-			return []string{p.Name() + ".SetChunkSize is not given the computed chunk size"}
+			return []string{recv + ".SetChunkSize is not given the computed chunk size"}
 		}
-		sized[p.Name()] = exprSig(call.Call.Args[2], 0)
+		sized[recv] = exprSig(call.Call.Args[2], 0)
 	}
 	var probs []string
-	for _, e := range []string{"tfEncoder", "locEncoder"} {
-		if _, ok := sized[e]; !ok {
-			probs = append(probs, e+" is not re-sized with the computed chunk size")
-		}
+	if len(sized) < 2 {
+		probs = append(probs, fmt.Sprintf("%d encoder(s) re-sized with the computed chunk size, the freq/norm and the location encoder both have to be", len(sized)))
 	}
-	if len(probs) == 0 && sized["tfEncoder"] != sized["locEncoder"] {
-		probs = append(probs, "the two encoders are re-sized with different document bounds")
+	bound := ""
+	for _, b := range sized {
+		if bound != "" && b != bound {
+			probs = append(probs, "the two encoders are re-sized with different document bounds")
+			break
+		}
+		bound = b
 	}
 	return probs
 }
